@@ -28,9 +28,11 @@ def main(tier):
     corpus = [S.parse1(l) for l in open("corpus/c01.sx")] if __import__("os").path.exists("corpus/c01.sx") else []
     optcorr.run(chk, "opt/corpus", corpus, cfg, optcorr.prop_differs)
     optcorr.run(chk, "opt/exhaustive", exhaustive, cfg, optcorr.prop_differs, share=True)
+    two = list(cases.two_level(("a", "b"), extra=("tt",) if tier == "thorough" else ()))
+    optcorr.run(chk, "opt/two-level", two, cfg, optcorr.prop_differs, share=True)
     optcorr.run(chk, "opt/random-shared", rnd, cfg, optcorr.prop_differs, share=True)
     chk.rule = (
-        "bounded-exhaustive: every tree over {&,|,^,~,true,false} and 3 names with <= %d nodes; plus random trees of 7-60 nodes over 5 names with "
+        "bounded-exhaustive: every tree over {&,|,^,~,true,false} and 3 names with <= %d nodes; every two-level tree op1(op2(l1,l2), op3(l3,l4)) over the literals a, ~a, b, ~b (7-11 nodes); plus random trees of 7-60 nodes over 5 names with "
         "repeated / negated / shared sub-terms and random stored variable states. Each case: model optimizeT vs predicate.optimize (structural), "
         "and optimize(p) vs p under all 2^k assignments on the real objects. non-trivial = distinct inputs that optimize changes." % (6 if tier == "quick" else 7)
     )
